@@ -35,4 +35,16 @@ theorem fragment14_conforms : type_of% (@GM.Props.C02Frag.fragment14_conforms bl
 theorem fragment13_conforms_quoted : type_of% (@GM.Props.C02Frag.fragment13_conforms_quoted block_phase_bracket_free_holds) :=
   GM.Props.C02Frag.fragment13_conforms_quoted block_phase_bracket_free_holds
 
+/-- **Nested block quotes, wider class** (stage 22: digits, `*`, `+`, `-` inside; no line ending in `-` / `=`) -/
+theorem fragment22_conforms : type_of% (@GM.Props.C02Frag.fragment22_conforms block_phase_bracket_free_holds) :=
+  GM.Props.C02Frag.fragment22_conforms block_phase_bracket_free_holds
+
+/-- **The union fragment with `*` emphasis inside nested block quotes** (stage 22) -/
+theorem fragment22_conforms_union : type_of% (@GM.Props.C02Frag.fragment22_conforms_union block_phase_bracket_free_holds) :=
+  GM.Props.C02Frag.fragment22_conforms_union block_phase_bracket_free_holds
+
+/-- **The full union (stage 21) inside nested block quotes** (stage 23) -/
+theorem fragment23_conforms : type_of% (@GM.Props.C02Frag.fragment23_conforms block_phase_bracket_free_holds) :=
+  GM.Props.C02Frag.fragment23_conforms block_phase_bracket_free_holds
+
 end GM.Props.C02FragInteg
